@@ -17,6 +17,8 @@ namespace rkcommon {
     template struct ActualArray3D<unsigned char>;
     template struct IndexShiftedArray3D<float>;
     template struct Array3DAccessor<unsigned char, float>;
+    template struct Array3DAccessor<int, unsigned char>;   // a wrapping (non-monotone) conversion
+    template struct Array3D<int>;
     template struct Array3DRepeater<float>;
     template struct SubBoxArray3D<float>;
     template struct MultiSliceArray3D<float>;
